@@ -3,7 +3,7 @@ CHECK = {'level': 'exploration',
  'rule': 'rapid-generated single chains of headers (genesis height 0/1/1000, batch size 2-6, length up to 6*batchSize+2, generators '
          'active/standby/removed, maxHeightGenerated honest/0/h-1/>=h/random, aggregate commits, legal parameter changes incl. no-ops) replayed '
          'through the real liskbft module and a height-indexed LIP-0058 model, compared after every header; before a fifth of the steps the module under test takes a detour (1-3 headers of an abandoned branch, half of them with a parameter change, then its store is rolled back) which the model and the twin never see; plus SetBFTParameters validation cases '
-         'and fault-free round-robin runs with the two-quorum finality bound. Non-trivial = chain longer than the 3*batchSize window with at least '
+         'and fault-free round-robin runs with the two-quorum finality bound; plus a small-scope ENUMERATION: ten worlds (2-3 validators, equal/heavy weights, low precommit threshold, standby generator, join/leave/re-weight at a fixed height) x genesis height 0/1000, every admissible chain over generator x maxHeightGenerated-kind by iterative deepening to a complete depth within a node budget (depth reached is in the notes), same full comparison after every header. Non-trivial = chain longer than the 3*batchSize window with at least '
          'one of {effective parameter change, validator joined/left, header with maxHeightGenerated>=height, certified height advanced}; round-robin '
          'runs longer than the window; rejected parameter sets. Distinct by digest of the full step list',
  'level_text': 'Differential test of the real BFT module against an independent transcription of LIP-0058 after every header of generated chains: '
@@ -14,4 +14,5 @@ CHECK = {'level': 'exploration',
  'technique': 'property-based differential testing (rapid) against a LIP-0058 reference model',
  'assumptions': ['LIP-0058 transcription in harness/model/bft', 'ImpliesMaximalPrevotes not asserted (outside the statement)'],
  'quick': [{'pkg': 'c02', 'checks': 1500, 'timeout': 600}],
- 'thorough': [{'pkg': 'c02', 'checks': 12000, 'shards': 16, 'timeout': 2400}]}
+ 'thorough': [{'pkg': 'c02', 'checks': 12000, 'shards': 16, 'timeout': 2400, 'args': ['-test.skip', 'TestExhaustiveSmall']},
+              {'pkg': 'c02', 'run': 'TestExhaustiveSmall', 'shards': 16, 'timeout': 2400}]}
